@@ -401,13 +401,17 @@ def plan_c13(P: Planner):
         fn = r.choice(["quantize_weight", "quantize_activation", "absmax_scale"])
         shape = [r.choice([1, 4, 8, 33]), r.choice([8, 16, 128, 256])]
         op = {"op": "lib", "fn": fn, "shape": shape, "seed": P.S.sub("lib", P.nops), "dtype": r.choice(P.sw["dt"]), "cls": r.choice(ICLS)}
+        op["view"] = r.choice([None, None, "t", "strided", "0d"])
         if fn == "quantize_weight":
+            if op["view"] == "0d":
+                op["view"] = None
             op["qtype"] = r.choice(WQ)
             op["axis"] = r.choice([0, -1])
             if op["qtype"] in ("qint2", "qint4") and r.random() < 0.5:
                 op["group_size"] = r.choice([8, 32, 64])
         elif fn == "quantize_activation":
             op["qtype"] = r.choice(AQ)
+            op["scale"] = r.choice(["absmax", "absmax", "one", "fixed"])
         else:
             op["qtype"] = r.choice(AQ)
             op["axis"] = r.choice([None, 0, -1])
